@@ -955,6 +955,13 @@ class Server:
                     except errors.PathIOError:
                         connection.response("451", "file system error")
                         continue
+                    except asyncio.CancelledError:
+                        # a transfer task cancelled by ABOR before it reached the
+                        # body guarded by @worker (still waiting for the data
+                        # connection, or not started at all)
+                        connection.response("426", "transfer aborted")
+                        connection.response("226", "abort successful")
+                        continue
                     # this is "command" result
                     if isinstance(result, bool):
                         if not result:
